@@ -138,6 +138,15 @@ pub fn do_fmt(c: &Value, w: &mut Out) {
                     Err(msg) => format!("PANIC {}", msg),
                 };
                 results.lock().unwrap().push(json!({"ev": "Fmt", "case": id, "thread": t, "key": key, "locale": l.as_str(), "via": "td_format_string", "out": out2}));
+                // the view and the Display back-ends of the same formatter
+                for (via, f) in [("td", render_view as fn(Locale, &str) -> Option<String>), ("td_format", render_tformat_view), ("td_display|td_format_display", render_display)] {
+                    let out3 = match crate::run_caught(|| f(l, key)) {
+                        Ok(Some(s)) => s,
+                        Ok(None) => "NOKEY".to_string(),
+                        Err(msg) => format!("PANIC {}", msg),
+                    };
+                    results.lock().unwrap().push(json!({"ev": "Fmt", "case": id, "thread": t, "key": key, "locale": l.as_str(), "via": via, "out": out3}));
+                }
             }
         }));
     }
@@ -152,7 +161,9 @@ pub fn do_fmt(c: &Value, w: &mut Out) {
         let kind = call["kind"].as_str().unwrap();
         ev["kind"] = json!(kind);
         ev["args"] = json!(args);
-        ev["icu"] = json!(crate::run_caught(|| icu_direct(kind, &args, ev["locale"].as_str().unwrap())).unwrap_or_else(|m| format!("ORACLE-PANIC {}", m)));
+        let icu = crate::run_caught(|| icu_direct(kind, &args, ev["locale"].as_str().unwrap())).unwrap_or_else(|m| format!("ORACLE-PANIC {}", m));
+        // the Display event carries two renderings of the same text
+        ev["icu"] = if ev["via"].as_str().unwrap().contains('|') { json!(format!("{}|{}", icu, icu)) } else { json!(icu) };
         w.emit(&ev);
     }
 }
